@@ -1,93 +1,271 @@
-import EgglogVerif.Model.EGraph
+import EgglogVerif.Lemmas.EGraphInv
+import EgglogVerif.Lemmas.EGraphFix
 /-
 C01 — Equality is exactly the congruence closure of what was asserted.
 
-`CC U R` is the least equivalence containing the requested unions `U` and closed under congruence
-over the rows `R` ever inserted.  `C01_complete` is the heart of "none that follows is missed":
-in ANY state in which the rebuild loop has reached its fixpoint (rows canonical, one row per key)
-and which kept a canonical image of every inserted row, every `CC`-equality is a `find`-equality.
-`C01_sound_*` are the per-step facts behind "no equality is invented": the only places the model
-ever links two ids are a requested union and a key collision of two rows (a congruence).
+`CC ds U R` (Lemmas/EGraphInv.lean) is the least equivalence on ids that contains the requested
+unions `U` and is closed under congruence over the rows `R` ever inserted into constructor tables
+(id columns related, base-value columns equal ⇒ outputs related).
+
+The theorems below are about the EXECUTABLE model (`Model/EGraph.lean`) that the correspondence
+harness runs side by side with the real engine:
+
+* `C01_reach`    — every state reachable from an empty database by ANY sequence of unions, row
+                   insertions, constructor calls and rebuild passes satisfies the history invariant
+                   `Inv` for the unions / rows recorded along the way;
+* `C01_actions`  — so does the state after any rule head / top-level action without `delete`;
+* `C01_sound`    — in every such state, two ids with the same representative are `CC`-related:
+                   no equality is invented (holds between rebuilds too);
+* `C01_complete` — in every such state that is canonical, `CC`-related ids have the same
+                   representative: none that follows is missed;
+* `C01_exact`    — whenever the rebuild loop reports its fixpoint, `find a = find b ↔ CC a b`.
 -/
 namespace EgglogVerif.EGraph
+open EgglogVerif
 
-structure IRow where
-  f : Nat
-  args : List Nat
-  ret : Nat
-deriving DecidableEq, Repr
+/-! ### the state-changing primitives, with their ghost history -/
 
-/-- congruence closure of the unions `U` over the inserted rows `R` (index-wise premises) -/
-inductive CC (U : List (Nat × Nat)) (R : List IRow) : Nat → Nat → Prop
-  | base {a b} : (a, b) ∈ U → CC U R a b
-  | refl (a) : CC U R a a
-  | symm {a b} : CC U R a b → CC U R b a
-  | trans {a b c} : CC U R a b → CC U R b c → CC U R a c
-  | congr {r1 r2 : IRow} : r1 ∈ R → r2 ∈ R → r1.f = r2.f →
-      r1.args.length = r2.args.length →
-      (∀ i (h1 : i < r1.args.length) (h2 : i < r2.args.length), CC U R r1.args[i] r2.args[i]) →
-      CC U R r1.ret r2.ret
+inductive GOp where
+  | union (a b : Int)
+  | insert (f : Nat) (r : Row)
+  | create (f : Nat) (args : List Int)
+  | rebuildPass
+deriving Repr
 
-/-- what a rebuilt state guarantees -/
-structure Fixpoint (find : Nat → Nat) (U : List (Nat × Nat)) (R rows : List IRow) : Prop where
-  unions : ∀ a b, (a, b) ∈ U → find a = find b
-  fd : ∀ r1 ∈ rows, ∀ r2 ∈ rows, r1.f = r2.f → r1.args = r2.args → find r1.ret = find r2.ret
-  pres : ∀ r ∈ R, ∃ r' ∈ rows, r'.f = r.f ∧ r'.args = r.args.map find ∧ find r'.ret = find r.ret
+def GOp.apply (g : EG) : GOp → EG
+  | .union a b => g.union a b
+  | .insert f r => g.insertRow f r
+  | .create f args => (g.lookupOrCreate f args).1
+  | .rebuildPass => EGraph.rebuildPass g
 
-/-- **Completeness at the rebuild fixpoint**: nothing that follows by reflexivity, symmetry,
-transitivity and congruence is missed. -/
-theorem C01_complete {find : Nat → Nat} {U R rows} (h : Fixpoint find U R rows) :
-    ∀ a b, CC U R a b → find a = find b := by
-  intro a b hab
-  induction hab with
-  | base hu => exact h.unions _ _ hu
+def insRow (g : EG) (f : Nat) (r : Row) : List IRow :=
+  if f < g.tables.size then [⟨f, r.args, r.out⟩] else []
+
+/-- unions requested / rows inserted by one primitive -/
+def GOp.hist (g : EG) : GOp → List (Nat × Nat) × List IRow
+  | .union a b => ([(a.toNat, b.toNat)], [])
+  | .insert f r => ([], insRow g f r)
+  | .create f args => ([], createRow g f args)
+  | .rebuildPass => ([], [])
+
+structure Traced where
+  g : EG
+  U : List (Nat × Nat)
+  R : List IRow
+
+def Traced.step (t : Traced) (op : GOp) : Traced :=
+  ⟨op.apply t.g, (op.hist t.g).1 ++ t.U, (op.hist t.g).2 ++ t.R⟩
+
+def Traced.run (t : Traced) (ops : List GOp) : Traced := ops.foldl Traced.step t
+
+/-- the empty database over the declarations `decls` -/
+def EG.init (decls : Array Decl) : EG := { decls := decls, tables := Array.replicate decls.size [] }
+
+def declOf (decls : Array Decl) (f : Nat) : Decl := decls.getD f ⟨[], false, .unit⟩
+
+theorem Inv.insertRow' {ds : Nat → Decl} {g : EG} {U R} (i : Inv ds g U R) (f : Nat) (r : Row) :
+    Inv ds (g.insertRow f r) U (insRow g f r ++ R) := by
+  unfold insRow
+  split
+  · rename_i hf; exact i.insertRow f r hf
+  · rename_i hf; exact i.insertRow_oob f r (Nat.le_of_not_lt hf)
+
+theorem Inv.init (decls : Array Decl) : Inv (declOf decls) (EG.init decls) [] [] := by
+  have hw : (EG.init decls).WF := by
+    intro x
+    show UF.par #[] x ≤ x
+    rw [UF.par_ge_size (by simp)]; exact Nat.le_refl _
+  have htab : ∀ f, (EG.init decls).table f = [] := by
+    intro f
+    unfold EG.table EG.init
+    simp only [Array.getD_eq_getD_getElem?, Array.getElem?_replicate]
+    split <;> rfl
+  refine ⟨hw, fun _ => rfl, fun a b h => by simp at h, fun r h => by simp at h, ?_, ?_⟩
+  · intro x y hxy
+    have hx : (EG.init decls).rt x = x := UF.root_of_fix hw (UF.par_ge_size (by simp [EG.init]))
+    have hy : (EG.init decls).rt y = y := UF.root_of_fix hw (UF.par_ge_size (by simp [EG.init]))
+    rw [hx, hy] at hxy
+    subst hxy; exact CC.refl _
+  · intro f y hy; rw [htab f] at hy; simp at hy
+
+theorem Inv.gop {ds : Nat → Decl} {t : Traced} (i : Inv ds t.g t.U t.R) (op : GOp) :
+    Inv ds (t.step op).g (t.step op).U (t.step op).R := by
+  cases op with
+  | union a b => exact i.union a b
+  | insert f r => exact i.insertRow' f r
+  | create f args => exact i.lookupOrCreate f args
+  | rebuildPass => exact i.rebuildPass
+
+/-- **Every reachable state satisfies the history invariant** (any operation sequence, any
+declarations, rebuild passes at arbitrary moments). -/
+theorem C01_reach (decls : Array Decl) (ops : List GOp) :
+    let t := (Traced.mk (EG.init decls) [] []).run ops
+    Inv (declOf decls) t.g t.U t.R := by
+  have key : ∀ (ops : List GOp) (t : Traced), Inv (declOf decls) t.g t.U t.R →
+      Inv (declOf decls) (t.run ops).g (t.run ops).U (t.run ops).R := by
+    intro ops
+    induction ops with
+    | nil => intro t i; exact i
+    | cons op ops ih => intro t i; exact ih (t.step op) (i.gop op)
+  exact key ops _ (Inv.init decls)
+
+/-- **No equality is invented**: in every state satisfying the invariant (in particular every
+reachable one, also between rebuilds) equal representatives are justified by the history. -/
+theorem C01_sound {ds : Nat → Decl} {g : EG} {U R} (i : Inv ds g U R) (a b : Int)
+    (h : g.find a = g.find b) : CC ds U R a.toNat b.toNat :=
+  i.sound _ _ ((find_eq_iff i.wf a b).mp h)
+
+/-- **Nothing that follows is missed**: in a canonical state satisfying the invariant, every
+equality derivable from the history by reflexivity, symmetry, transitivity and congruence holds. -/
+theorem C01_complete {ds : Nat → Decl} {g : EG} {U R} (i : Inv ds g U R) (c : Canonical g) :
+    ∀ x y, CC ds U R x y → g.rt x = g.rt y := by
+  intro x y hxy
+  induction hxy with
+  | base hu => exact i.unions _ _ hu
   | refl => rfl
   | symm _ ih => exact ih.symm
   | trans _ _ ih1 ih2 => exact ih1.trans ih2
-  | @congr r1 r2 h1 h2 hf hlen _ ih =>
-    obtain ⟨r1', hr1', hf1, ha1, hret1⟩ := h.pres r1 h1
-    obtain ⟨r2', hr2', hf2, ha2, hret2⟩ := h.pres r2 h2
-    have hmap : r1.args.map find = r2.args.map find := by
-      apply List.ext_getElem
-      · simp [hlen]
-      · intro i h1' h2'
-        simp only [List.getElem_map]
-        exact ih i (by simpa using h1') (by simpa using h2')
-    have hkey : r1'.args = r2'.args := by rw [ha1, ha2, hmap]
-    have := h.fd r1' hr1' r2' hr2' (by rw [hf1, hf2, hf]) hkey
-    rw [← hret1, ← hret2]; exact this
+  | @congr r1 r2 h1 h2 hf hm hl _ hb ih =>
+    obtain ⟨y1, hy1, a1, o1⟩ := i.pres r1 h1
+    obtain ⟨y2, hy2, a2, o2⟩ := i.pres r2 h2
+    rw [← hf] at hy2 a2 o2
+    rw [i.decl] at a1 a2 o1 o2
+    -- the two inserted keys canonicalise to the same key
+    have hkeys : canonArgs g (ds r1.f).argIsId r1.args = canonArgs g (ds r1.f).argIsId r2.args :=
+      (canonArgs_eq_iff i.wf _ _ _).mpr ⟨hl, fun k k1 k2 => ⟨fun hk => ih k k1 k2 hk, fun hk => hb k k1 k2 hk⟩⟩
+    -- stored keys are canonical, so the two images have the same key, hence are the same row
+    have c1 := (c.rows r1.f y1 hy1).1
+    have c2 := (c.rows r1.f y2 hy2).1
+    unfold ArgsCanon at c1 c2
+    rw [i.decl] at c1 c2
+    have hsame : y1.args = y2.args := by rw [← c1, ← c2, a1, a2, hkeys]
+    have : y1 = y2 := uniqueKeys_eq (c.keys r1.f) hy1 hy2 hsame
+    subst this
+    rw [← o1 hm, ← o2 hm]
 
-/-- **Soundness of the two linking sites.**  (1) a key collision in `insertInto` only ever unions
-the outputs of two rows with EQUAL keys — a congruence step; -/
+/-- **Exactness at the rebuild fixpoint.**  Whenever the rebuild loop of the model reports that it
+reached its fixpoint, the equalities of the resulting database are exactly the congruence closure
+of the unions requested and rows inserted so far. -/
+theorem C01_exact {ds : Nat → Decl} {g : EG} {U R} (i : Inv ds g U R) (fuel : Nat)
+    (hfix : (rebuild fuel g).2 = true) (a b : Int) :
+    (rebuild fuel g).1.find a = (rebuild fuel g).1.find b ↔ CC ds U R a.toNat b.toNat := by
+  have i' := Inv.rebuild fuel i
+  obtain ⟨c, _⟩ := rebuild_canonical fuel g i.wf hfix
+  constructor
+  · exact C01_sound i' a b
+  · intro h; exact (find_eq_iff i'.wf a b).mpr (C01_complete i' c _ _ h)
+
+/-! ### rule heads and top-level actions -/
+
+def NoDelete : Action → Prop
+  | .delete _ _ => False
+  | _ => True
+
+/-- unions requested / rows inserted by one action (mirrors `runAction`) -/
+def actionHist (acc : EG × Subst) : Action → List (Nat × Nat) × List IRow
+  | .call _ f args =>
+    match args.mapM (evalTm acc.2) with
+    | none => ([], [])
+    | some vs => ([], createRow acc.1 f vs)
+  | .union a b =>
+    match evalTm acc.2 a, evalTm acc.2 b with
+    | some x, some y => ([(x.toNat, y.toNat)], [])
+    | _, _ => ([], [])
+  | .set f args v =>
+    match args.mapM (evalTm acc.2), evalTm acc.2 v with
+    | some vs, some x => ([], insRow acc.1 f ⟨vs, x, false⟩)
+    | _, _ => ([], [])
+  | .subsume f args =>
+    match args.mapM (evalTm acc.2) with
+    | none => ([], [])
+    | some vs =>
+      match lookupRow (acc.1.table f) vs with
+      | some r => ([], insRow acc.1 f { r with sub := true })
+      | none =>
+        ([], insRow (acc.1.lookupOrCreate f vs).1 f ⟨vs, (acc.1.lookupOrCreate f vs).2, true⟩ ++ createRow acc.1 f vs)
+  | _ => ([], [])
+
+theorem Inv.err {ds : Nat → Decl} {g : EG} {U R} (i : Inv ds g U R) : Inv ds { g with err := true } U R :=
+  i.congr i.wf (fun _ => rfl) rfl rfl
+
+/-- **Every action other than `delete` preserves the invariant**, with the history it adds. -/
+theorem C01_actions {ds : Nat → Decl} {acc : EG × Subst} {U R} (i : Inv ds acc.1 U R) (a : Action)
+    (hnd : NoDelete a) :
+    Inv ds (runAction acc a).1 ((actionHist acc a).1 ++ U) ((actionHist acc a).2 ++ R) := by
+  cases a with
+  | call dst f args =>
+    simp only [runAction, actionHist]
+    cases args.mapM (evalTm acc.2) with
+    | none => exact i.err
+    | some vs => exact i.lookupOrCreate f vs
+  | prim dst op args =>
+    simp only [runAction, actionHist]
+    cases args.mapM (evalTm acc.2) with
+    | none => exact i.err
+    | some vs =>
+      simp only
+      cases primEval op vs with
+      | none => exact i.err
+      | some v => exact i
+  | union x y =>
+    simp only [runAction, actionHist]
+    cases evalTm acc.2 x with
+    | none => exact i.err
+    | some vx =>
+      cases evalTm acc.2 y with
+      | none => exact i.err
+      | some vy => exact i.union vx vy
+  | set f args v =>
+    simp only [runAction, actionHist]
+    cases args.mapM (evalTm acc.2) with
+    | none => exact i.err
+    | some vs =>
+      cases evalTm acc.2 v with
+      | none => exact i.err
+      | some x => exact i.insertRow' f _
+  | subsume f args =>
+    simp only [runAction, actionHist]
+    cases args.mapM (evalTm acc.2) with
+    | none => exact i.err
+    | some vs =>
+      simp only
+      cases lookupRow (acc.1.table f) vs with
+      | some r => exact i.insertRow' f _
+      | none =>
+        simp only
+        have := (i.lookupOrCreate f vs).insertRow' f ⟨vs, (acc.1.lookupOrCreate f vs).2, true⟩
+        rw [List.append_assoc]
+        exact this
+  | delete f args => exact absurd hnd (by simp [NoDelete])
+  | panic => exact i.err
+
+/-! ### non-vacuity: a concrete run -/
+
+/-- `A`, `B` nullary, `F` unary; insert `A`, `B`, `F(A)`, `F(B)`, union `A` `B`, rebuild. -/
+def exDecls : Array Decl := #[⟨[], true, .unionId⟩, ⟨[], true, .unionId⟩, ⟨[true], true, .unionId⟩]
+def exOps : List GOp := [.create 0 [], .create 1 [], .create 2 [0], .create 2 [1], .union 0 1]
+
+def exT : Traced := (Traced.mk (EG.init exDecls) [] []).run exOps
+
+/-- the hypotheses of `C01_exact` are met by this run (the invariant by `C01_reach`, the flag by
+kernel evaluation), and it is not trivial: `F(A) = F(B)` holds, `A = F(A)` does not -/
+example : (rebuild 10 exT.g).2 = true ∧ (rebuild 10 exT.g).1.find 2 = (rebuild 10 exT.g).1.find 3 ∧
+    (rebuild 10 exT.g).1.find 0 ≠ (rebuild 10 exT.g).1.find 2 := by
+  decide +kernel
+
+example : CC (declOf exDecls) exT.U exT.R 2 3 :=
+  (C01_exact (C01_reach exDecls exOps) 10 (by decide +kernel) 2 3).mp (by decide +kernel)
+
+/-- **Soundness of the two linking sites** (kept from the first version of this file): a key
+collision in `insertInto` only ever unions the outputs of two rows with EQUAL keys; -/
 theorem C01_sound_collision (g : EG) (d : Decl) (cur new : Row) (hne : cur.out ≠ new.out)
     (hm : d.merge = .unionId) :
     (mergeRows g d cur new).1.parents = (UF.union g.parents cur.out.toNat new.out.toNat).1 := by
   simp [mergeRows, hm, hne, EG.union]
 
-/-- (2) with any other merge behaviour the union-find is untouched -/
+/-- with any other merge behaviour the union-find is untouched -/
 theorem C01_sound_lattice (g : EG) (d : Decl) (cur new : Row) (hm : d.merge ≠ .unionId) :
     (mergeRows g d cur new).1.parents = g.parents := by
-  cases hd : d.merge with
-  | unionId => exact absurd hd hm
-  | min => simp [mergeRows, hd]
-  | max => simp [mergeRows, hd]
-  | unit => simp [mergeRows, hd]
-  | assertEq =>
-    simp only [mergeRows, hd]
-    split <;> rfl
-
-/-- non-vacuity: a concrete rebuilt state meets the hypotheses, and the theorem then yields the
-congruence `F(A) = F(B)` from `A = B` -/
-def exFind (x : Nat) : Nat := if x = 1 then 0 else if x = 3 then 2 else x
-
-example : Fixpoint exFind [(0, 1)] [⟨0, [0], 2⟩, ⟨0, [1], 3⟩] [⟨0, [0], 2⟩] := by
-  refine ⟨?_, ?_, ?_⟩
-  · intro a b h; simp at h; obtain ⟨rfl, rfl⟩ := h; rfl
-  · intro r1 h1 r2 h2 _ _; simp at h1 h2; subst h1 h2; rfl
-  · intro r hr
-    simp at hr
-    rcases hr with rfl | rfl
-    · exact ⟨_, List.mem_singleton.mpr rfl, rfl, rfl, rfl⟩
-    · exact ⟨_, List.mem_singleton.mpr rfl, rfl, rfl, rfl⟩
+  rw [mergeRows_parents, if_neg (fun h => hm h.1)]
 
 end EgglogVerif.EGraph
